@@ -6,16 +6,19 @@ import (
 	"context"
 	"errors"
 	"fmt"
+	"reflect"
 	"sort"
 	"strings"
 	"sync"
 	"sync/atomic"
 	"testing"
 	"time"
+	"unsafe"
 
 	sgbucket "github.com/couchbase/sg-bucket"
 	"github.com/couchbase/sync_gateway/base"
 	"github.com/couchbase/sync_gateway/channels"
+	skiplist "github.com/couchbasedeps/fast-skiplist"
 )
 
 // C08 correspondence + monitors on the real db.changeCache (sequence buffering).
@@ -37,11 +40,21 @@ const (
 func (k c08Kind) coq() string { return [...]string{"KDoc", "KPrinc", "KUnused"}[k] }
 
 type c08Op struct {
-	Typ  string  `json:"op"` // A arrive single, R arrive range, H housekeep, X abandon, O open channel cache S (lazily)
+	Typ  string  `json:"op"` // A arrive single, R arrive range, H housekeep, X abandon, Y abandon the skip-list elements whose bit is set, O open channel cache S (lazily)
 	Kind c08Kind `json:"kind,omitempty"`
 	S    uint64  `json:"s,omitempty"`
 	Hi   uint64  `json:"hi,omitempty"`
 	Aged bool    `json:"aged,omitempty"`
+	Bits []bool  `json:"old,omitempty"` // Y: element j of the skipped list is older than CacheSkippedSeqMaxWait
+	Real int     `json:"real_wait_ms,omitempty"` // Y: no timestamp is touched; CacheSkippedSeqMaxWait is Real ms for the call (the real clock decides)
+}
+
+func c08Bits(b []bool) string {
+	it := make([]string, len(b))
+	for i, x := range b {
+		it[i] = cqBool(x)
+	}
+	return "[" + strings.Join(it, ";") + "]"
 }
 
 func (o c08Op) coq() string {
@@ -52,6 +65,8 @@ func (o c08Op) coq() string {
 		return fmt.Sprintf("ArriveRange %d %d %s", o.S, o.Hi, cqBool(o.Aged))
 	case "H":
 		return "Housekeep"
+	case "Y":
+		return "AbandonSome " + c08Bits(o.Bits)
 	}
 	return "Abandon"
 }
@@ -100,6 +115,16 @@ func (o c08Op) String() string {
 		return fmt.Sprintf("u%d-%d%s", o.S, o.Hi, a)
 	case "O":
 		return fmt.Sprintf("open%d", o.S)
+	case "Y":
+		b := ""
+		for _, x := range o.Bits {
+			if x {
+				b += "1"
+			} else {
+				b += "0"
+			}
+		}
+		return "Y" + b
 	}
 	return o.Typ
 }
@@ -269,7 +294,34 @@ func (in *c08Inst) apply(op c08Op) {
 		in.cc.options.CacheSkippedSeqMaxWait = 0 // every skipped entry is old enough
 		_ = in.cc.CleanSkippedSequenceQueue(ctx)
 		in.cc.options.CacheSkippedSeqMaxWait = c08MaxWait
+	case "Y":
+		if op.Real > 0 {
+			// the timestamps PushSkipped took from the real clock decide
+			in.cc.options.CacheSkippedSeqMaxWait = time.Duration(op.Real) * time.Millisecond
+			_ = in.cc.CleanSkippedSequenceQueue(ctx)
+			in.cc.options.CacheSkippedSeqMaxWait = c08MaxWait
+			return
+		}
+		// the adversary chooses, element by element, which timestamps are older than CacheSkippedSeqMaxWait (a day)
+		now := time.Now().Unix()
+		j := 0
+		for e := in.cc.skippedSeqs.list.Front(); e != nil; e = e.Next() {
+			ts := now
+			if j < len(op.Bits) && op.Bits[j] {
+				ts = now - int64((2 * c08MaxWait).Seconds())
+			}
+			c08SetTimestamp(e, ts)
+			j++
+		}
+		_ = in.cc.CleanSkippedSequenceQueue(ctx)
 	}
+}
+
+// the key of a skip-list element is unexported in its package: the harness plays the clock by writing the
+// timestamp in place (single-threaded at that point)
+func c08SetTimestamp(e *skiplist.Element, ts int64) {
+	f := reflect.ValueOf(e).Elem().FieldByName("key").FieldByName("Timestamp")
+	*(*int64)(unsafe.Pointer(f.UnsafeAddr())) = ts
 }
 
 type c08Obs struct {
@@ -281,16 +333,11 @@ type c08Obs struct {
 	Dl     []c08Dlv    `json:"delivered"`
 }
 
+// the keys of the skip list's elements, one by one (the structure matters: CompactList abandons whole elements)
 func (in *c08Inst) skippedRanges() [][2]uint64 {
 	var out [][2]uint64
 	for e := in.cc.skippedSeqs.list.Front(); e != nil; e = e.Next() {
 		k := e.Key()
-		if n := len(out); n > 0 && k.Start <= out[n-1][1]+1 {
-			if k.End > out[n-1][1] {
-				out[n-1][1] = k.End
-			}
-			continue
-		}
 		out = append(out, [2]uint64{k.Start, k.End})
 	}
 	return out
@@ -441,6 +488,8 @@ type c08Mon struct {
 	prevNext   uint64
 	prevSkip   [][2]uint64
 	prevRecv   []uint64
+	prevPend   [][2]uint64
+	docMode    bool // the history holds the expansion of document events: mentions in recent_sequences are not arrivals of their own
 	buffered   bool
 	skippedAny bool
 	dupAny     bool
@@ -481,19 +530,73 @@ func (m *c08Mon) after(op c08Op, o c08Obs) {
 			}
 		}
 	}
-	if op.Typ == "X" {
+	m.noteAbandon(op, o)
+	m.deliveries(o)
+	// seqbuf_late_delivered: a skipped sequence that turns up is delivered late and leaves the skipped list
+	if wasSkipped && !wasReceived {
+		if len(o.Dl) != 1 || o.Dl[0].Seq != op.S || !o.Dl[0].Late || !o.Dl[0].InSkip || o.Dl[0].Kind != op.Kind {
+			m.fail("seqbuf_late_delivered", "late-arrival-not-delivered", fmt.Sprintf("skipped sequence %d arrived, deliveries %+v", op.S, o.Dl))
+		}
+		if c08InRanges(op.S, o.Skip) {
+			m.fail("seqbuf_late_delivered", "late-arrival-still-skipped", fmt.Sprintf("sequence %d still in the skipped list after its late arrival", op.S))
+		}
+	}
+	m.state(o)
+	// seqbuf_exactly_once (second half), on consistent feeds: an arrived entry is delivered, pending or abandoned
+	if m.consistent && !m.docMode {
+		for _, h := range m.hist {
+			if h.Typ != "A" || h.S <= m.initial {
+				continue
+			}
+			m.mustBeAccountedFor(h.Kind, h.S, o)
+		}
+	}
+	m.prevNext, m.prevSkip, m.prevRecv = o.Next, o.Skip, o.Recv
+}
+
+// CleanSkippedSequenceQueue: which elements of the skip list went (partial abandonment: exactly the elements whose
+// timestamp was old enough -- seqbuf_abandon_exact)
+func (m *c08Mon) noteAbandon(op c08Op, o c08Obs) {
+	switch op.Typ {
+	case "X":
 		m.abandoned = append(m.abandoned, m.prevSkip...)
+		if len(o.Skip) != 0 {
+			m.fail("seqbuf_abandon_exact", "abandon-all-left-elements", fmt.Sprintf("every skipped element was old enough, yet %v remain", o.Skip))
+		}
+	case "Y":
+		if op.Real > 0 { // the real clock decided: read off what went
+			for _, e := range m.prevSkip {
+				if !c08HasPair(o.Skip, e) {
+					m.abandoned = append(m.abandoned, e)
+				}
+			}
+			return
+		}
+		var kept [][2]uint64
+		for j, e := range m.prevSkip {
+			if j < len(op.Bits) && op.Bits[j] {
+				m.abandoned = append(m.abandoned, e)
+			} else {
+				kept = append(kept, e)
+			}
+		}
+		if fmt.Sprint(kept) != fmt.Sprint(o.Skip) {
+			m.fail("seqbuf_abandon_exact", "abandoned-wrong-elements", fmt.Sprintf("skipped elements %v, old enough %v: expected %v to remain, found %v", m.prevSkip, op.Bits, kept, o.Skip))
+		}
 	}
-	if len(o.Pend) > 0 {
-		m.buffered = true
+}
+
+func c08HasPair(l [][2]uint64, x [2]uint64) bool {
+	for _, y := range l {
+		if y == x {
+			return true
+		}
 	}
-	if len(o.Skip) > 0 {
-		m.skippedAny = true
-	}
-	// seqbuf_defensive: nextSequence never moves backwards
-	if o.Next < m.prevNext {
-		m.fail("seqbuf_next_monotone", "next-regressed", fmt.Sprintf("nextSequence went from %d to %d", m.prevNext, o.Next))
-	}
+	return false
+}
+
+// what reached the channel cache during the last step
+func (m *c08Mon) deliveries(o c08Obs) {
 	// seqbuf_exactly_once (first half): nothing reaches the channel cache twice
 	for _, d := range o.Dl {
 		lo, hi := d.Seq, d.Seq
@@ -517,14 +620,36 @@ func (m *c08Mon) after(op c08Op, o c08Obs) {
 		}
 		m.all = append(m.all, d)
 	}
-	// seqbuf_late_delivered: a skipped sequence that turns up is delivered late and leaves the skipped list
-	if wasSkipped && !wasReceived {
-		if len(o.Dl) != 1 || o.Dl[0].Seq != op.S || !o.Dl[0].Late || !o.Dl[0].InSkip || o.Dl[0].Kind != op.Kind {
-			m.fail("seqbuf_late_delivered", "late-arrival-not-delivered", fmt.Sprintf("skipped sequence %d arrived, deliveries %+v", op.S, o.Dl))
+}
+
+func (m *c08Mon) mustBeAccountedFor(k c08Kind, s uint64, o c08Obs) {
+	found := c08InRanges(s, m.abandoned)
+	for _, d := range m.all {
+		if d.Seq == s && d.End == 0 && d.Kind == k {
+			found = true
 		}
-		if c08InRanges(op.S, o.Skip) {
-			m.fail("seqbuf_late_delivered", "late-arrival-still-skipped", fmt.Sprintf("sequence %d still in the skipped list after its late arrival", op.S))
+	}
+	for _, p := range o.Pend {
+		if p[0] == s && p[1] == 0 {
+			found = true
 		}
+	}
+	if !found {
+		m.fail("seqbuf_exactly_once", "arrival-lost", fmt.Sprintf("sequence %d (%s) arrived but is neither delivered nor pending nor abandoned", s, k.coq()))
+	}
+}
+
+// the monitors that only look at the state (and the history of what was covered)
+func (m *c08Mon) state(o c08Obs) {
+	if len(o.Pend) > 0 {
+		m.buffered = true
+	}
+	if len(o.Skip) > 0 {
+		m.skippedAny = true
+	}
+	// seqbuf_defensive: nextSequence never moves backwards
+	if o.Next < m.prevNext {
+		m.fail("seqbuf_next_monotone", "next-regressed", fmt.Sprintf("nextSequence went from %d to %d", m.prevNext, o.Next))
 	}
 	// seqbuf_hwm_contiguous / seqbuf_skipped_exact
 	if o.Next > m.initial+1 && o.Next-m.initial < 5000 {
@@ -536,12 +661,21 @@ func (m *c08Mon) after(op c08Op, o c08Obs) {
 			if m.consistent && sk && cov {
 				m.fail("seqbuf_skipped_exact", "skipped-but-arrived", fmt.Sprintf("sequence %d arrived or was declared unused but is still in the skipped list", s))
 			}
+			if sk && ab {
+				m.fail("seqbuf_skipped_exact", "skipped-and-abandoned", fmt.Sprintf("sequence %d was abandoned and is in the skipped list", s))
+			}
 		}
 	}
+	prevHi := m.initial
 	for _, r := range o.Skip {
 		if r[0] <= m.initial || r[1] >= o.Next {
 			m.fail("seqbuf_skipped_exact", "skipped-out-of-window", fmt.Sprintf("skipped range %v outside (initial=%d, next=%d)", r, m.initial, o.Next))
 		}
+		// the elements of the skip list are ascending and pairwise disjoint (sk_wf_from, for every operation list)
+		if r[0] > r[1] || r[0] <= prevHi {
+			m.fail("seqbuf_skipped_exact", "skiplist-elements-overlap", fmt.Sprintf("skip-list elements %v are not ascending and disjoint", o.Skip))
+		}
+		prevHi = r[1]
 		// seqbuf_stable_safe
 		if o.Stable >= r[0] {
 			m.fail("seqbuf_stable_safe", "stable-not-below-skipped", fmt.Sprintf("stable sequence %d is not below skipped %d", o.Stable, r[0]))
@@ -567,46 +701,37 @@ func (m *c08Mon) after(op c08Op, o c08Obs) {
 			}
 		}
 	}
-	// seqbuf_exactly_once (second half), on consistent feeds: an arrived document is delivered, pending or abandoned
+	// seqbuf_received_exact_all_feeds: receivedSeqs is exactly the set of buffered single sequences, on EVERY feed (the
+	// 'oldest pending < nextSequence' branch never drops a single sequence) ...
+	var singles []uint64
+	for _, p := range o.Pend {
+		if p[1] == 0 {
+			singles = append(singles, p[0])
+		}
+	}
+	if fmt.Sprint(singles) != fmt.Sprint(o.Recv) {
+		m.fail("seqbuf_received_exact", "received-set-differs", fmt.Sprintf("receivedSeqs %v, buffered single sequences %v", o.Recv, singles))
+	}
+	// ... seqbuf_singles_never_stale: and none of them is below nextSequence
+	for _, x := range singles {
+		if x < o.Next {
+			m.fail("seqbuf_received_exact", "buffered-single-below-next", fmt.Sprintf("buffered single sequence %d is below nextSequence %d", x, o.Next))
+		}
+	}
+	// seqbuf_pending_ties_identical, on consistent feeds: entries that share a start sequence are copies of one unused range
 	if m.consistent {
-		for _, h := range m.hist {
-			if h.Typ != "A" || h.S <= m.initial {
-				continue
-			}
-			found := c08InRanges(h.S, m.abandoned)
-			for _, d := range m.all {
-				if d.Seq == h.S && d.End == 0 && d.Kind == h.Kind {
-					found = true
-				}
-			}
-			for _, p := range o.Pend {
-				if p[0] == h.S && p[1] == 0 {
-					found = true
-				}
-			}
-			if !found {
-				m.fail("seqbuf_exactly_once", "arrival-lost", fmt.Sprintf("sequence %d (%s) arrived but is neither delivered nor pending nor abandoned", h.S, h.Kind.coq()))
+		for i := 1; i < len(o.Pend); i++ {
+			if o.Pend[i][0] == o.Pend[i-1][0] && (o.Pend[i][1] != o.Pend[i-1][1] || o.Pend[i][1] == 0) {
+				m.fail("seqbuf_pending_ties_identical", "different-entries-share-start", fmt.Sprintf("pending entries %v and %v share their start sequence", o.Pend[i-1], o.Pend[i]))
 			}
 		}
 	}
-	// seqbuf_received_exact, on consistent feeds: receivedSeqs is exactly the set of buffered single sequences
-	if m.consistent {
-		var singles []uint64
-		for _, p := range o.Pend {
-			if p[1] == 0 {
-				singles = append(singles, p[0])
-			}
-		}
-		if fmt.Sprint(singles) != fmt.Sprint(o.Recv) {
-			m.fail("seqbuf_received_exact", "received-set-differs", fmt.Sprintf("receivedSeqs %v, buffered single sequences %v", o.Recv, singles))
-		}
-	}
-	m.prevNext, m.prevSkip, m.prevRecv = o.Next, o.Skip, o.Recv
 }
 
 // ---------- running one trace ----------
 
 type c08Result struct {
+	ops        []c08Op // the operations as recorded (pseudo-operations removed, real-clock abandonment with the bits observed)
 	obs        []c08Obs
 	chans      []c08ChanObs // final contents of every channel cache, "*" first
 	lazy       bool         // the trace opens channel caches lazily
@@ -637,13 +762,44 @@ func (e *c08Env) runTrace(rec *vRecorder, stream string, maxp int, initial uint6
 		chans []uint64
 	}
 	var lateDocs []lateDoc
+	var sleptAt time.Time
 	for _, op := range ops {
+		if op.Typ == "sleep" {
+			time.Sleep(time.Duration(op.S) * time.Millisecond)
+			sleptAt = time.Now()
+			continue
+		}
 		var open []uint64
 		for _, c := range in.chans {
 			open = append(open, c.id)
 		}
 		in.apply(op)
 		o := in.observe()
+		if op.Typ == "Y" && op.Real > 0 {
+			// the real clock decided; an element the trace says must be old enough has to be gone
+			seen := make([]bool, len(m.prevSkip))
+			for j, e := range m.prevSkip {
+				seen[j] = !c08HasPair(o.Skip, e)
+				if j < len(op.Bits) && op.Bits[j] && !seen[j] {
+					m.hist = append(m.hist, op)
+					m.fail("seqbuf_abandon_exact", "real-clock-kept-old-element", fmt.Sprintf("skip-list element %v was pushed more than CacheSkippedSeqMaxWait ago and survived CleanSkippedSequenceQueue", e))
+					m.hist = m.hist[:len(m.hist)-1]
+				}
+			}
+			// ... and an element pushed after the pause, less than CacheSkippedSeqMaxWait - 1 s ago by the harness's own
+			// clock, has to stay
+			if time.Since(sleptAt) < time.Duration(op.Real-1000)*time.Millisecond {
+				for j, e := range m.prevSkip {
+					if j < len(op.Bits) && !op.Bits[j] && seen[j] {
+						m.hist = append(m.hist, op)
+						m.fail("seqbuf_abandon_exact", "real-clock-abandoned-young-element", fmt.Sprintf("skip-list element %v was pushed less than CacheSkippedSeqMaxWait ago and was abandoned", e))
+						m.hist = m.hist[:len(m.hist)-1]
+					}
+				}
+			}
+			op.Bits = seen
+		}
+		res.ops = append(res.ops, op)
 		m.hist = append(m.hist, op)
 		if op.Typ == "O" {
 			res.lazy = true
@@ -712,7 +868,8 @@ func (e *c08Env) runTrace(rec *vRecorder, stream string, maxp int, initial uint6
 	return res
 }
 
-func c08CaseTerm(maxp int, initial uint64, ops []c08Op, res c08Result) string {
+func c08CaseTerm(maxp int, initial uint64, _ []c08Op, res c08Result) string {
+	ops := res.ops
 	steps := make([]string, len(ops))
 	if res.lazy {
 		for i, op := range ops {
@@ -1041,6 +1198,18 @@ func TestVerifC08(t *testing.T) {
 	A := func(k c08Kind, s uint64, aged bool) c08Op { return c08Op{Typ: "A", Kind: k, S: s, Aged: aged} }
 	R := func(lo, hi uint64, aged bool) c08Op { return c08Op{Typ: "R", S: lo, Hi: hi, Aged: aged} }
 	H, X := c08Op{Typ: "H"}, c08Op{Typ: "X"}
+	Y := func(bits ...bool) c08Op { return c08Op{Typ: "Y", Bits: bits} }
+	// CleanSkippedSequenceQueue: every element old enough, or an adversarial choice element by element
+	randAbandon := func() c08Op {
+		if rnd.Chance(30) {
+			return X
+		}
+		bits := make([]bool, 1+rnd.Intn(4))
+		for i := range bits {
+			bits[i] = rnd.Chance(50)
+		}
+		return c08Op{Typ: "Y", Bits: bits}
+	}
 
 	// ---- (s) system level, run first so that its findings lead the report: real database + caching feed + real
 	//      continuous changes feeds (MultiChangesFeed with late-sequence feeds); monitors only ----
@@ -1081,6 +1250,19 @@ func TestVerifC08(t *testing.T) {
 		{100, 0, []c08Op{A(c08Doc, 1, false), A(c08Doc, 2, false), A(c08Doc, 4, true), A(c08Doc, 5, false), A(c08Doc, 6, false), H,
 			{Typ: "O", S: 1}, A(c08Doc, 3, false), {Typ: "O", S: 2}, A(c08Doc, 7, false)}},
 		{0, 10, []c08Op{A(c08Doc, 13, false), {Typ: "O", S: 1}, {Typ: "O", S: 2}, A(c08Doc, 11, false), A(c08Doc, 14, false), A(c08Doc, 12, false), A(c08Doc, 15, false)}},
+		// partial abandonment: three elements [11,12] [14,14] [16,17]; the middle one, then the last one, then a late arrival
+		// of an abandoned sequence (ignored) and of a still skipped one (delivered late)
+		{100, 10, []c08Op{A(c08Doc, 13, true), H, A(c08Doc, 15, true), H, A(c08Doc, 18, true), H, Y(false, true), A(c08Doc, 14, false),
+			Y(false, true), A(c08Doc, 12, false), A(c08Doc, 16, false), Y(true), A(c08Doc, 11, false)}},
+		// an element split by a late arrival: both halves keep the element's timestamp and are abandoned separately
+		{100, 0, []c08Op{A(c08Doc, 6, true), H, A(c08Doc, 3, false), Y(false, true), A(c08Doc, 5, false), A(c08Doc, 1, false), Y(true)}},
+		// an unused range cutting through two elements, then partial abandonment with more bits than elements / no bits
+		{100, 0, []c08Op{A(c08Doc, 4, true), H, A(c08Doc, 9, true), H, R(2, 6, false), Y(true, false, true, true), Y(), A(c08Doc, 7, false), X}},
+		// the real clock: [11,12] is skipped, 1.2 s later [14,14]; with CacheSkippedSeqMaxWait = 1 s only the first is old enough
+		{100, 10, []c08Op{A(c08Doc, 13, true), H, {Typ: "sleep", S: 2100}, A(c08Doc, 15, true), H, {Typ: "Y", Bits: []bool{true, false}, Real: 2000}, A(c08Doc, 11, false), A(c08Doc, 14, false)}},
+		// the two traces of C08_Refuted.tie_order_matters (inconsistent feed: 12 is a document and the start of a range)
+		{100, 10, []c08Op{A(c08Doc, 12, false), R(12, 15, false), A(c08Doc, 11, false), A(c08Doc, 17, true), H}},
+		{100, 10, []c08Op{R(12, 15, false), A(c08Doc, 12, false), A(c08Doc, 11, false), A(c08Doc, 17, true), H}},
 		// the history of C08_nonvacuous
 		{100, 10, []c08Op{A(c08Doc, 13, true), A(c08Doc, 15, true), H, R(16, 17, false), A(c08Doc, 11, false), A(c08Doc, 12, false), A(c08Doc, 19, false), A(c08Doc, 12, false)}},
 	}
@@ -1192,13 +1374,13 @@ func TestVerifC08(t *testing.T) {
 			if rnd.Chance(12) {
 				ops = append(ops, H)
 			}
-			if rnd.Chance(2) {
-				ops = append(ops, X)
+			if rnd.Chance(4) {
+				ops = append(ops, randAbandon())
 			}
 		}
 		ops = append(ops, H)
-		if rnd.Chance(10) {
-			ops = append(ops, X)
+		if rnd.Chance(25) {
+			ops = append(ops, randAbandon())
 		}
 		ops = append(ops, tail...)
 		ops = append(ops, H)
@@ -1292,7 +1474,7 @@ func TestVerifC08(t *testing.T) {
 			case r < 19:
 				op = H
 			default:
-				op = X
+				op = randAbandon()
 			}
 			tie := false
 			for _, p := range probe.cc.pendingLogs {
@@ -1322,6 +1504,49 @@ func TestVerifC08(t *testing.T) {
 	}
 	rec.Extra("adversarial_ops_dropped_equal_start_tie", tiesAvoided)
 	rec.Extra("states_with_sequence_1_skipped_low_seq_corner", c08Seq1Skipped)
+
+	// ---- (d') equal start sequences in the pending heap (observation (b)): INCONSISTENT feeds in which a single sequence
+	//      and an unused range, or two different ranges, start at the same number.  container/heap's order among equal
+	//      keys is not modelled, so these traces are monitored only (the unconditional theorems must hold whatever the
+	//      order); each trace is also run with the two colliding arrivals swapped, and the traces whose final
+	//      nextSequence / skipped list depend on that order are counted: the consequence exhibited on the real code ----
+	nTies := vBudget(150, 2000)
+	tieDepends := 0
+	for i := 0; i < nTies; i++ {
+		initial := []uint64{0, 5}[rnd.Intn(2)]
+		maxp := pickMaxp()
+		base0 := initial + 2 + uint64(rnd.Intn(3))
+		first := A(c08Kind(rnd.Intn(3)), base0, rnd.Chance(30))
+		second := R(base0, base0+1+uint64(rnd.Intn(4)), rnd.Chance(30))
+		if rnd.Chance(25) {
+			first = R(base0, base0+1+uint64(rnd.Intn(4)), rnd.Chance(30))
+		}
+		var pre, post []c08Op
+		for j := rnd.Intn(3); j > 0; j-- {
+			pre = append(pre, A(c08Doc, base0+2+uint64(rnd.Intn(6)), rnd.Chance(30)))
+		}
+		for s := initial + 1; s < base0; s++ {
+			post = append(post, A(c08Doc, s, false))
+		}
+		for j := rnd.Intn(3); j > 0; j-- {
+			post = append(post, A(c08Kind(rnd.Intn(3)), base0+uint64(rnd.Intn(8)), rnd.Chance(30)))
+		}
+		post = append(post, A(c08Doc, base0+9, true), H)
+		run := func(a, b c08Op) c08Obs {
+			ops := append(append(append([]c08Op(nil), pre...), a, b), post...)
+			res := env.runTrace(rec, "ties", maxp, initial, ops, false)
+			rec.Count("ties", "ties", fmt.Sprintf("%d|%d|%s", maxp, initial, c08OpsString(ops)), true)
+			return res.obs[len(res.obs)-1]
+		}
+		o1, o2 := run(first, second), run(second, first)
+		if o1.Next != o2.Next || fmt.Sprint(o1.Skip) != fmt.Sprint(o2.Skip) {
+			tieDepends++
+		}
+	}
+	rec.Extra("ties_traces_whose_outcome_depends_on_arrival_order_of_equal_starts", tieDepends)
+
+	// ---- (f)-(i) feeds of real events through ProcessFeedEvent / DocChanged: verif_c08_docfeed_test.go ----
+	c08DocFeedStreams(t, rec, rnd, env, randAbandon)
 
 	// ---- (e) several feed workers delivering concurrently (processEntry serialises on c.lock): final-state
 	//      monitors only ----
